@@ -218,9 +218,9 @@ def run(ctx: Ctx):
                 if hp["num_batches"] > E * S:
                     hp["num_batches"] = 1
                 iters = int(rng.choice([2, 3]))
-                sets = list(CALLBACK_SETS[1:]) if not ctx.quick else [str(x) for x in rng.choice(CALLBACK_SETS[1:], size=3, replace=False)]
-                if ctx.quick and "empty_list" not in sets:
-                    sets[0] = "empty_list"
+                # quick: the structurally different ways of passing observers (empty list, non-empty list) plus one
+                # randomly chosen single observer; thorough: all of them
+                sets = list(CALLBACK_SETS[1:]) if not ctx.quick else ["empty_list", "list_of_two", str(rng.choice(["noop", "progress", "logging_recording", "logging_console_tb"]))]
                 cases.append({"algo": name, "env": env_name, "hp": hp, "total": E * S * iters + int(rng.integers(0, E * S)), "key": int(rng.integers(0, 2**31 - 10)), "pkey": int(rng.integers(0, 2**31 - 10)), "callback_sets": sets})
             payloads.append(cases)
     run_pool(ctx, "checks.c11_reproducibility", "worker", payloads, procs=10)
